@@ -581,7 +581,7 @@ func (c *Client) negotiateVersion(ctx context.Context) error {
 		return err
 	}
 	if resp.Header.BatchCount != 1 || len(resp.BatchItem) != 1 {
-		return errors.New("Unexpected batch item count")
+		return withItemErrors(errors.New("Unexpected batch item count"), resp.BatchItem)
 	}
 	bi := resp.BatchItem[0]
 	if bi.ResultStatus == kmip.ResultStatusOperationFailed && bi.ResultReason == kmip.ResultReasonOperationNotSupported {
@@ -683,9 +683,17 @@ func (c *Client) BatchOpt(ctx context.Context, payloads []kmip.OperationPayload,
 	}
 	// Check batch item count
 	if int(resp.Header.BatchCount) != len(resp.BatchItem) || len(resp.BatchItem) != len(payloads) {
-		return nil, errors.New("Batch count mismatch")
+		return nil, withItemErrors(errors.New("Batch count mismatch"), resp.BatchItem)
 	}
 	return resp.BatchItem, nil
+}
+
+// withItemErrors joins err with the failures reported by the server in items, so that rejecting
+// a malformed response (for example a whole batch answered with a single failed item) does not
+// hide the status, reason and message the server gave.
+func withItemErrors(err error, items BatchResult) error {
+	_, failures := items.Unwrap()
+	return errors.Join(err, failures)
 }
 
 // BatchOption defines a function type that modifies a kmip.RequestMessage,
